@@ -56,6 +56,170 @@ def fold_const(e):
     return None
 
 
+
+# ---------------------------------------------------------------------------------------------------------------------
+# lookAt, decided structurally (fallback of the reference comparison): on every returning path the result is tm(M) with
+#   M[0:3, 3] = position of the first pose,  M[0:3, 0:3] = columns (x, y, z),
+#   z = unit(target - position), y = z x x, and x a unit vector orthogonal to z:
+#     x = unit(u x z) for a constant u (generic heading), or - only on a path whose facts say |u x z| is (near) zero, i.e.
+#     z is parallel to u - a constant unit vector orthogonal to u.
+# A right-handed orthonormal triple with the third column at the target is exactly "a proper rotation's local z at the target".
+def _p(text):
+    try:
+        return ast.parse(text, mode='eval').body
+    except SyntaxError:
+        return None
+
+
+def _tail(call):
+    return norm_text(call.func).split('.')[-1] if isinstance(call, ast.Call) else None
+
+
+def _strip(e):
+    while True:
+        if isinstance(e, ast.Call) and isinstance(e.func, ast.Attribute) and e.func.attr in ('flatten', 'copy', 'reshape', 'ravel', 'squeeze'):
+            e = e.func.value
+        elif isinstance(e, ast.Call) and _tail(e) in ('asarray', 'array') and len(e.args) == 1 and not isinstance(e.args[0], (ast.List, ast.Tuple)):
+            e = e.args[0]
+        else:
+            return e
+
+
+def _is_pos(e, prm):
+    t = norm_text(_strip(e))
+    return t in ('%s[0:3]' % prm, '%s[:3]' % prm, '%s.TAA[0:3]' % prm, '%s.gTAA()[0:3]' % prm, '%s.TM[0:3,3]' % prm, '%s.gTM()[0:3,3]' % prm)
+
+
+def _cv(e):
+    try:
+        return const_value(e)
+    except ValueError:
+        return None
+
+
+def _const_vec(e):
+    e = _strip(e)
+    if isinstance(e, ast.Call) and _tail(e) in ('array', 'asarray') and e.args:
+        e = e.args[0]
+    if isinstance(e, (ast.List, ast.Tuple)) and len(e.elts) == 3:
+        try:
+            return [float(ast.literal_eval(x)) for x in e.elts]
+        except (ValueError, TypeError, SyntaxError):
+            return None
+    return None
+
+
+def look_struct(fi):
+    """-> ('ok' | 'bad' | 'shape', message)"""
+    from ..engine.paths import paths_of
+    if len(fi.params) < 2:
+        return 'shape', 'lookAt takes two poses'
+    a, b = fi.params[0], fi.params[1]
+    n_ret = 0
+    for pth in paths_of(fi.node, fi.params):
+        if pth.kind != 'return' or pth.ret_src is None:
+            return 'bad', 'a path through lookAt returns nothing'
+        n_ret += 1
+        r = _p(pth.ret_src)
+        if not (isinstance(r, ast.Call) and _tail(r) == 'tm' and len(r.args) == 1):
+            return 'shape', 'the result is not tm(<4x4>) (line %s)' % pth.ret_line
+        base = norm_text(r.args[0])
+        last = {}
+        for e in pth.events:
+            if e[0] == 'store' and len(e) > 3 and e[1].startswith(base + '['):
+                last[e[1][len(base):]] = e[3]
+        handler = any(e[0] == 'except' for e in pth.events)
+        pos = last.get('[0:3,3]') or last.get('[:3,3]')
+        if pos is None or _p(pos) is None:
+            return 'shape', 'no store to the position column of the result (line %s)' % pth.ret_line
+        if not _is_pos(_p(pos), a):
+            return 'bad', 'the position column of the result is %s, not the position of the first pose' % pos[:60]
+        rot = last.get('[0:3,0:3]') or last.get('[:3,:3]')
+        cols = None
+        if rot is not None:
+            m = _p(rot)
+            if isinstance(m, ast.Attribute) and m.attr == 'T':
+                m = ('T', m.value)
+            elif isinstance(m, ast.Call) and isinstance(m.func, ast.Attribute) and m.func.attr == 'transpose' and not m.args:
+                m = ('T', m.func.value)
+            elif isinstance(m, ast.Call) and _tail(m) == 'transpose' and len(m.args) == 1:
+                m = ('T', m.args[0])
+            elif isinstance(m, ast.Call) and _tail(m) == 'column_stack' and len(m.args) == 1:
+                m = ('C', m.args[0])
+            else:
+                m = ('R', m)
+            body = m[1]
+            if m[0] in ('T', 'R') and isinstance(body, ast.Call) and _tail(body) in ('array', 'asarray', 'vstack') and body.args:
+                body = body.args[0]
+            if isinstance(body, (ast.List, ast.Tuple)) and len(body.elts) == 3:
+                if m[0] == 'R':
+                    return 'bad', 'the frame axes are stored as rows of the rotation block (the transposed rotation), line %s' % pth.ret_line
+                cols = list(body.elts)
+        elif all(('[0:3,%d]' % k) in last for k in range(3)):
+            cols = [_p(last['[0:3,%d]' % k]) for k in range(3)]
+        if not cols or any(c is None for c in cols):
+            return 'shape', 'rotation block of the result not recognised as three columns (line %s)' % pth.ret_line
+        X, Y, Z = cols
+        # z = unit(target - position)
+        zok = False
+        if isinstance(Z, ast.Call) and _tail(Z) == 'Normalize' and len(Z.args) == 1 and isinstance(Z.args[0], ast.BinOp) and isinstance(Z.args[0].op, ast.Sub):
+            T, P = Z.args[0].left, Z.args[0].right
+            if _is_pos(P, a):
+                if _is_pos(T, b):
+                    zok = True
+                elif handler and isinstance(T, ast.BinOp) and isinstance(T.op, ast.Add) and _is_pos(T.left, b):
+                    nudge = _const_vec(T.right)
+                    zok = nudge is not None and max(abs(v) for v in nudge) <= 1e-4     # the degenerate-heading retry of an except handler
+        if not zok:
+            return 'bad', 'third column is %s, not unit(position of the second pose - position of the first)' % norm_text(Z)[:80]
+        zt = norm_text(Z)
+        # y = z x x
+        if not (isinstance(Y, ast.Call) and _tail(Y) == 'cross' and len(Y.args) == 2 and norm_text(Y.args[0]) == zt and norm_text(Y.args[1]) == norm_text(X)):
+            return 'bad', ('second column is %s, not cross(z, x) of the columns beside it: the triple is not right-handed for every '
+                           'direction of z (line %s)' % (norm_text(Y)[:60], pth.ret_line))
+        # x: unit(u x z), or a constant unit vector orthogonal to u under the fact |u x z| ~ 0
+        xok = False
+        if isinstance(X, ast.Call) and _tail(X) == 'Normalize' and len(X.args) == 1 and isinstance(X.args[0], ast.Call) and _tail(X.args[0]) == 'cross' \
+                and len(X.args[0].args) == 2 and norm_text(X.args[0].args[1]) == zt:
+            u = _const_vec(X.args[0].args[0])
+            xok = u is not None and any(v != 0 for v in u)
+            if not xok:
+                return 'bad', 'first column: heading reference %s is not a constant non-zero vector' % norm_text(X.args[0].args[0])[:50]
+        else:
+            xc = _const_vec(X)
+            if xc is None:
+                return 'bad', 'first column %s is neither unit(u x z) nor a constant vector' % norm_text(X)[:60]
+            if abs(math.sqrt(sum(v * v for v in xc)) - 1.0) > 1e-12:
+                return 'bad', 'first column %s is not a unit vector' % xc
+            for key, truth in pth.facts.items():
+                f = _p(pth.fact_src.get(key, key))
+                if f is None:
+                    continue
+                degenerate = None
+                if isinstance(f, ast.Call) and _tail(f) == 'NearZero' and len(f.args) == 1 and truth:
+                    degenerate = f.args[0]
+                elif isinstance(f, ast.Compare) and len(f.ops) == 1:
+                    l_, r_ = f.left, f.comparators[0]
+                    op = type(f.ops[0])
+                    if _cv(l_) is not None and _cv(r_) is None:
+                        l_, r_ = r_, l_
+                        op = {ast.Lt: ast.Gt, ast.LtE: ast.GtE, ast.Gt: ast.Lt, ast.GtE: ast.LtE}.get(op, op)
+                    eps = _cv(r_)
+                    if isinstance(eps, (int, float)) and 0 <= eps <= 1e-3 and ((op in (ast.Lt, ast.LtE) and truth) or (op in (ast.Gt, ast.GtE) and not truth)):
+                        degenerate = l_
+                if isinstance(degenerate, ast.Call) and _tail(degenerate) in ('Norm', 'norm') and degenerate.args:
+                    c = degenerate.args[0]
+                    if isinstance(c, ast.Call) and _tail(c) == 'cross' and len(c.args) == 2:
+                        us = [_const_vec(c.args[k]) for k in (0, 1) if norm_text(c.args[1 - k]) == zt]
+                        if us and us[0] is not None and any(us[0]) and abs(sum(p_ * q_ for p_, q_ in zip(us[0], xc))) < 1e-12:
+                            xok = True
+            if not xok:
+                return 'bad', ('first column is the constant %s on a path that does not establish that z is parallel to a constant axis '
+                               'orthogonal to it (line %s)' % (xc, pth.ret_line))
+    if not n_ret:
+        return 'shape', 'no returning path'
+    return 'ok', '%d returning paths: position kept, z = unit(target - position), x orthogonal unit, y = z x x' % n_ret
+
 def check(model, rep):
     rep.extra['explanation'] = (
         'Exact polynomial identities for the plane / mirror / sphere helpers, constant folding of the angle-wrapping '
@@ -302,8 +466,17 @@ def check(model, rep):
                 out = tm(M)
             return out
         """
-    spec_ob(F(FSR, 'lookAt'), 'position kept; columns (x, y, z) with z = unit(target - position), x = unit(up x z), y = z x x', [LOOK],
-            'lookAt does not build a right-handed frame at the first point looking at the second')
+    look_fi = F(FSR, 'lookAt')
+    look_ok = tv.fi_matches_spec(model, look_fi, LOOK)
+    if look_ok[0]:
+        look_res = ('ok', look_ok[1])
+    else:
+        look_res = look_struct(look_fi)        # written differently from the reference: decide the frame structurally, path by path
+    if look_res[0] == 'shape':
+        rep.ob('R18.4', look_fi, 'lookAt frame', False, look_res[1], shape=True)
+    else:
+        rep.ob('R18.4', look_fi, 'position kept; columns (x, y, z) with z = unit(target - position), x a unit vector orthogonal to z, y = z x x',
+               look_res[0] == 'ok', 'lookAt does not build a right-handed frame at the first point looking at the second: ' + look_res[1])
 
     # ---------------------------------------------------------------- R18.5
     rep.rule('R18.5', 'sphere samplers return unit vectors: x^2 + y^2 + z^2 == 1 identically')
